@@ -69,6 +69,13 @@ CHECKS = {
             "(argument shape, result shape, passing mode, chain depth 1..3) case is run through rpyc and locally; root outcome, ordered invocation log (each node exactly once), callee view and caller objects afterwards must agree.",
             "deterministic default schedule; families A (control) and B (data) are exhaustive within their bounds, their product is not enumerated",
             "E1+E3", "DESIGN.md#c01"),
+    "C03": ("model_checking",
+            "exhaustive enumeration of the value grammar against the statement's plain-immutable predicate plus explicit-state enumeration of all send/echo/drop/forward histories up to a depth bound on real Connection pairs (1 and 2 hops)",
+            "Every grammar value (incl. every subclass / container / callable / module kind and tuples mixing values and references) is sent and classified; references are echoed (must be the original), "
+            "re-sent while alive (must be the same proxy) and mutated through; all histories up to depth 3 (quick) / 4 (thorough) over {send sync/async/in tuple/twice, collect, echo, drop, forward over a second hop} "
+            "for built-in-class and user-class objects are replayed with an identity oracle after every step; obtain/deliver copies are equal but independent.",
+            "deterministic default schedule (delivery races are C10's subject); bounded history depth; generator/memoryview left out of part V",
+            "E1+E3+E5", "DESIGN.md#c03"),
 }
 
 NOT_APPLICABLE = {}
